@@ -367,7 +367,7 @@ func genC06(t *rapid.T, maxDepth int, quiescence bool) c06Case {
 		for c.Depth > 1 && pow(n+1, c.Depth) > 60000 {
 			c.Depth--
 		}
-		c.Combos = []int{0, 127, rapid.IntRange(1, 126).Draw(t, "combo1"), rapid.IntRange(1, 126).Draw(t, "combo2")}
+		c.Combos = []int{0, 127, 1 << uint(rapid.IntRange(0, 6).Draw(t, "single")), rapid.IntRange(1, 126).Draw(t, "combo2")} // all off, all on, one technique alone (nothing masks its errors), a drawn mix
 		return c
 	}
 	switch rapid.IntRange(0, 11).Draw(t, "src") {
@@ -377,7 +377,7 @@ func genC06(t *rapid.T, maxDepth int, quiescence bool) c06Case {
 			return fixed(hx.Playout{Start: fc.Pred})
 		}
 		return fixed(hx.Playout{Start: fc.Fen})
-	case 9, 10, 11: // shuffle history: the tree meets second / third occurrences at clocks 4, 8, 12 above the start clock
+	case 9, 10: // shuffle history: the tree meets second / third occurrences at clocks 4, 8, 12 above the start clock
 		q := hx.GenStart(t, 6)
 		if q.EP < 0 {
 			q.Half = rapid.SampledFrom([]int{0, 0, 0, 0, 0, 1, 2, 3, 88, 91, 92, 95}).Draw(t, "startClock")
@@ -422,7 +422,7 @@ func genC06(t *rapid.T, maxDepth int, quiescence bool) c06Case {
 	for c.Depth > 1 && pow(n+1, c.Depth) > 60000 {
 		c.Depth--
 	}
-	c.Combos = []int{0, 127, rapid.IntRange(1, 126).Draw(t, "combo1"), rapid.IntRange(1, 126).Draw(t, "combo2")}
+	c.Combos = []int{0, 127, 1 << uint(rapid.IntRange(0, 6).Draw(t, "single")), rapid.IntRange(1, 126).Draw(t, "combo2")} // all off, all on, one technique alone (nothing masks its errors), a drawn mix
 	return c
 }
 
@@ -446,6 +446,6 @@ func TestC06(t *testing.T) {
 	r.Assume("reference: plain negamax over refchess legal moves on an engine Position (DoMove/UndoMove/Evaluate/CheckRepetitions are trusted here and decided by C02/C03/C10/C15); a depth-d leaf is valued by the static evaluation (as the engine does), interior nodes without legal move -mate+ply / 0, a move leading to a twofold-repeated position or clock >= 100 is 0")
 	r.Assume("trees containing a position where the listed game-phase drift can occur are excluded by construction and counted")
 
-	hx.Sub(r, "minimax", r.N(600, 6000), func(t *rapid.T) c06Case { return genC06(t, r.N(3, 4), false) }, propC06)
-	hx.Sub(r, "quiescence-invariance", r.N(400, 5000), func(t *rapid.T) c06Case { return genC06(t, r.N(3, 4), true) }, propC06)
+	hx.Sub(r, "minimax", r.N(900, 6000), func(t *rapid.T) c06Case { return genC06(t, r.N(3, 4), false) }, propC06)
+	hx.Sub(r, "quiescence-invariance", r.N(600, 5000), func(t *rapid.T) c06Case { return genC06(t, r.N(3, 4), true) }, propC06)
 }
